@@ -38,8 +38,9 @@ type c19Scenario struct {
 	Jobs  int    `json:"jobs"`  // jobs per submitter
 	Dur   int    `json:"dur"`   // 0 none, 1 Gosched, 2 50us, 3 2ms, 4 mixed
 	Procs int    `json:"procs"` // GOMAXPROCS of the child
-	Mode  string `json:"mode"`  // drain | race | saturated | idle | tcp-drain | tcp-saturated | tcp-shutdown | tcp-late-accept | udp-drain | udp-saturated (pool inside a real transport.TarsServer)
+	Mode  string `json:"mode"`  // drain | race | saturated | idle | tcp-drain | tcp-saturated | tcp-shutdown | tcp-late-accept | tcp-two-servers | udp-drain | stall | udp-saturated (pool inside a real transport.TarsServer)
 	Seed  int64  `json:"seed"`
+	W2    int    `json:"w2,omitempty"`      // tcp-two-servers: MaxInvoke of the second server in the process
 	Hold  int    `json:"hold_ms,omitempty"` // saturated: how long the started jobs keep running after Release was called (default 25 ms)
 }
 
@@ -101,6 +102,9 @@ func c19RunScenario(sc c19Scenario) c19ChildOut {
 	if strings.HasPrefix(sc.Mode, "udp-") {
 		return c19RunUDP(sc)
 	}
+	if sc.Mode == "stall" { // one long job, then 3W short ones
+		sc.Subs, sc.Jobs = 1, 1+3*sc.W
+	}
 	total := sc.Subs * sc.Jobs
 	lg := &c19Log{ev: make([]int64, 4*total+64)}
 	var out c19ChildOut
@@ -146,7 +150,7 @@ func c19RunScenario(sc c19Scenario) c19ChildOut {
 			case 3:
 				time.Sleep(2 * time.Millisecond)
 			}
-			if gated {
+			if gated || (sc.Mode == "stall" && id == 1) { // stall: only the first job is long
 				<-gate
 			}
 			atomic.AddInt32(&running, -1)
@@ -205,6 +209,48 @@ func c19RunScenario(sc c19Scenario) c19ChildOut {
 			return ch
 		}
 		switch sc.Mode {
+		case "stall":
+			// one long job occupies one of W >= 2 workers; the short jobs submitted afterwards have idle workers and must all finish
+			// while the long one is still running (a job handed to the busy worker would wait behind it)
+			phase.Store("long-job")
+			sc.Subs = 1
+			sc.Jobs = 1 + 3*sc.W
+			var endedCnt int32
+			origMk := mkJob
+			mkJob = func(id int) gpool.Job {
+				j := origMk(id)
+				return func() { j(); atomic.AddInt32(&endedCnt, 1) }
+			}
+			subWG.Add(1)
+			go submitter(0, sc.Jobs) // job 1 is the long one, jobs 2.. are short; the submitter blocks only while the queue is full
+			t0 := time.Now()
+			for atomic.LoadInt32(&endedCnt) < int32(sc.Jobs-1) && time.Since(t0) < c19Slack {
+				time.Sleep(200 * time.Microsecond)
+			}
+			if e := atomic.LoadInt32(&endedCnt); e < int32(sc.Jobs-1) {
+				fail("C19/hang/job-stalls-with-idle-worker", fmt.Sprintf("one long job occupies one of W=%d workers; only %d of the %d short jobs submitted afterwards ran within %v although workers are idle (Q=%d)", sc.W, e, sc.Jobs-1, c19Slack, sc.Q))
+				close(gate)
+				return
+			}
+			if r := atomic.LoadInt32(&running); r != 1 {
+				fail("C19/long-job-not-running", fmt.Sprintf("the long job should be the only one running, %d are", r))
+			}
+			close(gate)
+			sd := make(chan struct{})
+			go func() { subWG.Wait(); close(sd) }()
+			if !waitCh(sd, "submit-return") {
+				return
+			}
+			ed := make(chan struct{})
+			go func() { ended.Wait(); close(ed) }()
+			out.Complete = true
+			if !waitCh(ed, "all-jobs-finished") {
+				return
+			}
+			phase.Store("release")
+			if !waitCh(release(), "release-return-on-idle-pool") {
+				return
+			}
 		case "drain", "idle":
 			// submit everything, wait until every job has finished, release the idle pool
 			phase.Store("submit")
@@ -506,6 +552,9 @@ func c19Child(sc c19Scenario) (c19ChildOut, string) {
 var c19ConfirmedHangs int32
 
 func c19IsTiming(sig string) bool {
+	if sig == "C19/hang/job-stalls-with-idle-worker" {
+		return true
+	}
 	return strings.HasPrefix(sig, "C19/hang/") || sig == "C19/submit-blocked-with-room" || sig == "C19/child"
 }
 
@@ -610,6 +659,20 @@ func c19Gen(tier string, rng *rand.Rand) []c19Case {
 			}
 		}
 	}
+	// one long job and short jobs behind it: idle workers must take them (W >= 2)
+	for _, w := range []int{2, 2, 3, 8} {
+		cs = append(cs, c19Case{Sc: c19Scenario{W: w, Q: []int{0, 1, 2, 16}[rng.Intn(4)], Subs: 1, Dur: rng.Intn(3), Procs: procs[rng.Intn(3)], Mode: "stall", Seed: rng.Int63()}})
+	}
+	// two pooled TCP servers in one process with different MaxInvoke: bound per server; one shut down, the other goes on
+	for _, p := range [][2]int{{3, 1}, {1, 2}} {
+		cs = append(cs, c19Case{Sc: c19Scenario{W: p[0], W2: p[1], Q: rng.Intn(3), Subs: 1, Dur: rng.Intn(3), Procs: procs[rng.Intn(3)], Mode: "tcp-two-servers", Seed: rng.Int63()}})
+	}
+	if tier == "thorough" {
+		for i := 0; i < 12; i++ {
+			cs = append(cs, c19Case{Sc: c19Scenario{W: 1 + rng.Intn(4), W2: 1 + rng.Intn(4), Q: rng.Intn(4), Subs: 1, Dur: rng.Intn(3), Procs: procs[rng.Intn(3)], Mode: "tcp-two-servers", Seed: rng.Int63()}})
+			cs = append(cs, c19Case{Sc: c19Scenario{W: 2 + rng.Intn(7), Q: []int{0, 1, 2, 16}[rng.Intn(4)], Subs: 1, Dur: rng.Intn(3), Procs: procs[rng.Intn(3)], Mode: "stall", Seed: rng.Int63()}})
+		}
+	}
 	// long jobs: Release is called while jobs that run for seconds occupy the workers
 	cs = append(cs, c19Case{Sc: c19Scenario{W: 2, Q: 1, Subs: 1, Jobs: 4, Dur: 0, Procs: procs[rng.Intn(3)], Mode: "saturated", Seed: rng.Int63(), Hold: 2600}})
 	if tier == "thorough" {
@@ -678,8 +741,12 @@ func c19Coq(c *c19Case) string {
 		}
 	}
 	fifo := c.Sc.W == 1 && calls <= 200
+	w := c.Sc.W
+	if c.Sc.Mode == "tcp-two-servers" { // one trace of two pools: together at most W + W2 handlers run
+		w += c.Sc.W2
+	}
 	server := strings.HasPrefix(c.Sc.Mode, "tcp-") // carries "request read" events: also validated against the model of the pool's use
-	return fmt.Sprintf("mkcase %d %s %s %s (unhex \"%s\"%%hex)", c.Sc.W, coqBool(c.Complete), coqBool(fifo), coqBool(server), sb.String())
+	return fmt.Sprintf("mkcase %d %s %s %s (unhex \"%s\"%%hex)", w, coqBool(c.Complete), coqBool(fifo), coqBool(server), sb.String())
 }
 
 func init() {
